@@ -4,6 +4,7 @@
    and constrained by the stated hypotheses only - dh_comm is NOT proved for X25519. *)
 From Coq Require Import NArith ZArith List.
 From Cloak Require Import Gen.Consts Model.HelloGrammar Model.Auth Model.Crypto.GCM Proofs.Auth.
+From Cloak Require Import Model.SessionKey Proofs.SessionKey.
 Import ListNotations.
 Local Open Scope N_scope.
 
@@ -166,3 +167,50 @@ Theorem C06_flag_constants :
 Proof. exact flag_constants_agree. Qed.
 Theorem C06_tolerance : tolerance = (180 * 1000000000)%Z.
 Proof. exact tolerance_is_180s. Qed.
+
+(* ------------------------------------------------------------------------------------------------------
+   Every connection of a session, not only the first.  A client with NumConn >= 2 (or reconnecting) presents the same
+   (UID, session id) several times; each connection draws its own ephemeral key, nonce, ... and the server draws a
+   fresh session key for each BEFORE looking the session up.  Model/SessionKey.v: the reply carries the key of the
+   session the connection joined (serve_keys / table_after follow dispatcher.go + ActiveUser.GetSession). *)
+Theorem C06_same_session_same_key : forall conns t i j sid f1 f2, (i <= j)%nat ->
+  nth_error conns i = Some (sid, f1) -> nth_error conns j = Some (sid, f2) ->
+  nth_error (serve_keys t conns) i = nth_error (serve_keys t conns) j /\
+  exists k, nth_error (serve_keys t conns) j = Some k /\ tbl_get sid (table_after t conns) = Some k.
+Proof. exact same_session_same_key. Qed.
+Print Assumptions C06_same_session_same_key.
+
+Theorem C06_new_session_fresh_key : forall t sid fresh rest, tbl_get sid t = None ->
+  nth_error (serve_keys t ((sid, fresh) :: rest)) 0 = Some fresh.
+Proof. exact new_session_fresh_key. Qed.
+Print Assumptions C06_new_session_fresh_key.
+
+(* Agreement for every connection of every session of a user (direct transport): the j-th connection's client obtains
+   exactly the key the server's session table holds for its session id, first connection or not. *)
+Theorem C06_agreement_every_connection_tls :
+  forall (dh : list N -> list N -> option (list N)) (pub : list N -> list N)
+         (seal : list N -> list N -> list N -> list N -> list N)
+         (open : list N -> list N -> list N -> list N -> option (list N)),
+  (forall a b, dh a (pub b) = dh b (pub a)) ->
+  (forall a, length (pub a) = 32%nat) ->
+  (forall k n p a, open k n (seal k n p a) a = Some p) ->
+  (forall k n p a, length (seal k n p a) = (length p + 16)%nat) ->
+  forall staticPv (conns : list conn),
+  Forall (conn_ok dh pub staticPv) conns ->
+  let keys := serve_keys [] (map (fun c => (i_sid (c_info c), c_fresh c)) conns) in
+  let table := table_after [] (map (fun c => (i_sid (c_info c), c_fresh c)) conns) in
+  forall j c, nth_error conns j = Some c ->
+  exists key hello shared sid,
+    nth_error keys j = Some key /\ tbl_get (i_sid (c_info c)) table = Some key /\
+    client_first_packet_tls dh pub seal (c_sk c) (c_info c) (client_ts (c_cnow c)) (c_ephPv c) (pub staticPv) = Some (hello, shared) /\
+    server_process_tls dh open hello staticPv (c_snow c) = Accept (c_info c) shared sid /\
+    client_finish_tls open shared (server_reply_tls seal shared sid key (c_nonce c) (c_filler c) (c_cert c)) = Some key.
+Proof. exact agreement_every_connection_tls. Qed.
+Print Assumptions C06_agreement_every_connection_tls.
+
+Theorem C06_connections_of_a_session_share_the_key : forall (conns : list conn) i j ci cj, (i <= j)%nat ->
+  nth_error conns i = Some ci -> nth_error conns j = Some cj -> i_sid (c_info ci) = i_sid (c_info cj) ->
+  let keys := serve_keys [] (map (fun c => (i_sid (c_info c), c_fresh c)) conns) in
+  nth_error keys i = nth_error keys j.
+Proof. exact connections_of_a_session_share_the_key. Qed.
+Print Assumptions C06_connections_of_a_session_share_the_key.
